@@ -6,6 +6,11 @@ import scipy.sparse as sp
 
 from .. import coqrun as cq
 
+def _nn(v):
+    """NaN counts as 'exceeds every bound' in the oracle comparisons"""
+    return np.inf if np.isnan(v) else v
+
+
 TECHNIQUE = 'Coq bounded proof that the stencil_grid algorithm equals its specification + ring proofs of the diffusion stencils + exhaustive small-grid correspondence'
 LEVEL_TEXT = ('Kernel-checked theorems (Props/C20.v): the Gallina transcription of stencil_grid (row-major nonzeros, '
               'strides, per-diagonal boundary zeroing by slices, dropping of out-of-range diagonals, summation of equal '
@@ -90,7 +95,7 @@ def run(ctx):
                 ev = np.sort(np.linalg.eigvalsh(A))
                 axes = [2 - 2 * np.cos(np.arange(1, n + 1) * np.pi / (n + 1)) for n in grid]
                 want = np.sort(np.array([sum(t) for t in itertools.product(*axes)]))
-                if np.abs(ev - want).max() > 1e-10:
+                if _nn(np.abs(ev - want).max()) > 1e-10:
                     ctx.fail('poisson/spectrum', 'max deviation from the tensor-product spectrum %.3g' % np.abs(ev - want).max(), case)
     # ---------------- diffusion stencils
     for eps in (1.0, 0.1, 1e-3, 7.5):
@@ -101,7 +106,7 @@ def run(ctx):
                 ctx.count('diffusion')
                 if abs(st.sum()) > 1e-12 * np.abs(st).sum():
                     ctx.fail('diffusion_stencil_2d/sum-not-zero', 'sum %.3g' % st.sum(), dict(eps=eps, theta=th, type=typ))
-                if np.abs(st - st[::-1, ::-1]).max() > 0:
+                if _nn(np.abs(st - st[::-1, ::-1]).max()) > 0:
                     ctx.fail('diffusion_stencil_2d/not-centrosymmetric', '', dict(eps=eps, theta=th, type=typ))
     # ---------------- Q1 elasticity on all small grid shapes
     for X in range(1, 5):
@@ -122,9 +127,9 @@ def run(ctx):
                 tag = '/non-square' if X != Y else ''
                 Ad, Afd = A.toarray(), Af.toarray()
                 sc = np.abs(Afd).max()
-                if np.abs(Ad - Ad.T).max() > 1e-12 * sc or np.linalg.eigvalsh((Ad + Ad.T) / 2).min() <= 0:
+                if _nn(np.abs(Ad - Ad.T).max()) > 1e-12 * sc or np.linalg.eigvalsh((Ad + Ad.T) / 2).min() <= 0:
                     ctx.fail('linear_elasticity/not-SPD' + tag, 'constrained stiffness matrix not symmetric positive definite', case)
-                if np.abs(Afd @ Bf).max() > 1e-9 * sc * np.abs(Bf).max():
+                if _nn(np.abs(Afd @ Bf).max()) > 1e-9 * sc * np.abs(Bf).max():
                     ctx.fail('linear_elasticity/rigid-body-modes' + tag, 'unconstrained operator: |A B| = %.3g' % np.abs(Afd @ Bf).max(), case)
                 # rows of the constrained operator not coupled to the boundary annihilate B
                 n_int = (X - 1 if X > 1 else 0)
